@@ -386,6 +386,17 @@ def run_unit(unit, tier):
         for pl in (b'', b'\x00x\x00', b'x\x00\x00\x00', b'\xe2\x80\xa8',
                    b'\xc2\x85', b'\xff\xfe', b'@@ -1 +1 @@', b'-- a', b'++ b'):
             one(build_hunk('CDIIC', 2, 3, 3, False, b'ctx', pl), False, True)
+        # every byte value in the header's context text (function names in
+        # latin-1 / Shift-JIS sources, invalid UTF-8, NUL)
+        for b in range(256):
+            if b in (0x0A,):
+                continue
+            for ctx in (bytes([b]), b'def f' + bytes([b]) + b'():',
+                        bytes([b]) * 2 + b' x'):
+                one(build_hunk('CDIC', None, 3, 3, True, ctx, b'x'), False,
+                    True)
+                one(build_hunk('DI', None, 3, 3, False, ctx, b'x')[:-1],
+                    True, True)       # damaged hunk with that context
         from mc.alphabets import BOUNDARY_SIZES_Q
         # bodies at buffer-boundary and larger line counts (lock files,
         # generated sources): one-sided, context-only and mixed hunks
